@@ -83,11 +83,17 @@ type replica struct {
 	mux  types.Application
 	dir  string
 	name string
+	disk bool
+
+	stopped bool
 }
 
 func (r *replica) close() {
-	r.srv.Stop()
-	r.srv.Cleanup()
+	if !r.stopped {
+		r.stopped = true
+		r.srv.Stop()
+		r.srv.Cleanup()
+	}
 	os.RemoveAll(r.dir)
 }
 
@@ -103,7 +109,7 @@ func seedSigner(tag string, seed []byte) signature.Signer {
 // openReplica creates (or, on an existing data directory, re-opens after a restart) an application
 // server exactly as the full node does: NewApplicationServer, application registration, time source,
 // transaction auth handler, Start.
-func openReplica(name, dir string, seed []byte, doc *genesis.Document) *replica {
+func openReplica(name, dir string, seed []byte, doc *genesis.Document, disk bool) *replica {
 	ident := &identity.Identity{
 		NodeSigner:      seedSigner(name+"/node", seed),
 		P2PSigner:       seedSigner(name+"/p2p", seed),
@@ -113,6 +119,7 @@ func openReplica(name, dir string, seed []byte, doc *genesis.Document) *replica 
 	srv, err := abci.NewApplicationServer(context.Background(), nil, &abci.ApplicationConfig{
 		DataDir:             dir,
 		StorageBackend:      "badger",
+		MemoryOnlyStorage:   !disk,
 		DisableCheckpointer: true,
 		Pruning:             abci.PruneConfig{PruneInterval: time.Hour},
 		Identity:            ident,
@@ -127,6 +134,9 @@ func openReplica(name, dir string, seed []byte, doc *genesis.Document) *replica 
 		panic(err)
 	}
 	app.Subscribe()
+	// Start() announces "state sync completed" after a restart; in the node the governance application
+	// listens, here a no-op subscriber stands in for the absent applications.
+	srv.MessageDispatcher().Subscribe(abciAPI.MessageStateSyncCompleted, nopSubscriber{})
 	if err = srv.SetEpochtime(stubBeacon{}); err != nil {
 		panic(err)
 	}
@@ -136,10 +146,14 @@ func openReplica(name, dir string, seed []byte, doc *genesis.Document) *replica 
 	if err = srv.Start(); err != nil { // dependency check, pruner worker (as the node does)
 		panic(err)
 	}
-	return &replica{srv: srv, mux: srv.Mux(), dir: dir, name: name}
+	return &replica{srv: srv, mux: srv.Mux(), dir: dir, name: name, disk: disk}
 }
 
-func newReplica(name string, seed []byte, doc *genesis.Document) *replica {
+type nopSubscriber struct{}
+
+func (nopSubscriber) ExecuteMessage(*abciAPI.Context, abciAPI.Message) (any, error) { return nil, nil }
+
+func newReplica(name string, seed []byte, doc *genesis.Document, disk bool) *replica {
 	base := os.Getenv("VERIF_SCRATCH")
 	if base == "" {
 		base = os.TempDir()
@@ -148,7 +162,7 @@ func newReplica(name string, seed []byte, doc *genesis.Document) *replica {
 	if err != nil {
 		panic(err)
 	}
-	r := openReplica(name, dir, seed, doc)
+	r := openReplica(name, dir, seed, doc, disk)
 	raw, err := json.Marshal(doc)
 	if err != nil {
 		panic(err)
@@ -164,9 +178,10 @@ func newReplica(name string, seed []byte, doc *genesis.Document) *replica {
 
 // restart stops the server, closes its database and opens a new server on the same data directory.
 func (r *replica) restart(seed []byte, doc *genesis.Document) *replica {
+	r.stopped = true
 	r.srv.Stop()
 	r.srv.Cleanup()
-	return openReplica(r.name, r.dir, seed, doc)
+	return openReplica(r.name, r.dir, seed, doc, true)
 }
 
 type muxWorld struct {
@@ -183,6 +198,7 @@ type muxWorld struct {
 	seed     []byte
 	mtb      uint64
 	minGasPx uint64
+	disk     bool // on-disk state database (needed for restarts; slow)
 }
 
 // inflight reads an account from replica V's in-flight block state.
@@ -459,8 +475,8 @@ func (mw *muxWorld) init(w *world) []string {
 	mw.doc = doc
 	w.chainA = doc.ChainContext()
 	setChain(w.chainA)
-	mw.p = newReplica("P", mw.seed, doc)
-	mw.v = newReplica("V", mw.seed, doc)
+	mw.p = newReplica("P", mw.seed, doc, mw.disk)
+	mw.v = newReplica("V", mw.seed, doc, mw.disk)
 	mw.pIdent = seedSigner("P/consensus", mw.seed)
 	mw.now = doc.Time
 	mw.height = 0
@@ -470,10 +486,10 @@ func (mw *muxWorld) init(w *world) []string {
 var _ = consensus.MethodMeta
 
 // genMuxCase generates a stream for the mux stage (same mix as genCase, grouped into blocks).
-func genMuxCase(r *hlib.Rng, nops int, flipAll bool, res *hlib.Result) []string {
+func genMuxCase(r *hlib.Rng, nops int, flipAll bool, disk bool, res *hlib.Result) []string {
 	mtb := []uint64{0, 0, 5, 100}[r.Intn(4)]
 	maxTx := []uint64{0, 32768, 32768, 400}[r.Intn(4)]
-	ops := []string{fmt.Sprintf("mworld %s %s %d %d %d", randBytes(r, 16, hexAlpha), randBytes(r, 64, hexAlpha), mtb, maxTx, []uint64{0, 0, 0, 1}[r.Intn(4)])}
+	ops := []string{fmt.Sprintf("mworld %s %s %d %d %d %s", randBytes(r, 16, hexAlpha), randBytes(r, 64, hexAlpha), mtb, maxTx, []uint64{0, 0, 0, 1}[r.Intn(4)], b01(disk))}
 	ns := 1 + r.Intn(4)
 	nonce := make([]uint64, ns)
 	for i := 0; i < ns; i++ {
@@ -582,7 +598,7 @@ func genMuxCase(r *hlib.Rng, nops int, flipAll bool, res *hlib.Result) []string 
 			ops = append(ops, "commit")
 			inBlock = 0
 			res.Count("mux:gen:commit")
-			if r.Chance(1, 5) {
+			if disk && r.Chance(1, 3) {
 				ops = append(ops, "restart")
 				res.Count("mux:gen:restart")
 			}
@@ -604,8 +620,21 @@ func muxStage(r *hlib.Rng, cases int, nops int, flipAll int, res *hlib.Result, r
 	for i := 0; i < cases; i++ {
 		cr := r.Fork()
 		cs := cr.Seed()
-		ops := genMuxCase(cr, 10+cr.Intn(nops), i < flipAll, res)
+		// every 8th stream runs on an on-disk database and restarts both replicas between blocks
+		ops := genMuxCase(cr, 10+cr.Intn(nops), i < flipAll, i%8 == 7, res)
+		c := res.Counters
+		a0, r0, f0 := c["mux:class:ok"]+c["mux:class:failed"], c["mux:class:bad-sig"]+c["mux:class:auth:invalid-nonce"], len(res.Failures)
 		runOne(ops, cs, true)
+		if c["mux:class:ok"]+c["mux:class:failed"] > a0 && c["mux:class:bad-sig"]+c["mux:class:auth:invalid-nonce"] > r0 && len(res.Failures) == f0 {
+			res.Distinct++ // streams are generated from distinct seeds; non-trivial: one authenticated and one rejected
+		}
+		if i == 0 {
+			lines, _, _ := runImpl(ops, hlib.NewResult("scratch", 0))
+			if len(lines) > 10 {
+				lines = lines[:10]
+			}
+			res.AddSample(lines)
+		}
 		if len(res.Failures) >= 8 {
 			break
 		}
